@@ -41,11 +41,12 @@ prop("C05", "emitted packets well-formed, fields as requested", "exploration",
      "constructed to land within +-2 of the 127/128, 16383/16384, 2097151/2097152 remaining-length boundaries; every byte "
      "written is strictly decoded by the independent reference codec and compared field by field with the request. "
      "Non-trivial = remaining length >= 128, or CONNECT with >= 2 optional fields, or >= 2 filters, or a multi-byte topic; "
-     "distinct = FNV-64 of the case JSON (API cases) / the length (codec cases).",
+     "distinct = FNV-64 of the case JSON (API cases) / the length (codec cases). OverMax: bodies at and beyond the protocol maximum - PUBLISH with a payload of 268435455-s bytes (s = 0..20) and a topic of 0..12 bytes through Publish on a connected client over a counting transport: a body over the maximum must be refused (error or the documented panic) with nothing written, a body within it must go out with the minimal 4-byte length; and the length encoder alone must not return an encoding for any n > 268435455. ViaRetry also checks every CONNECT of the reconnecting client against the requested client id / clean session / keep-alive (0, 60, 65535) for ping intervals of 0 / 2 s / 90 s.",
      [dict(tests="^TestVerifC05_LenCodecAll$", exhaustive_once=True),
       dict(tests="^TestVerifC05_Len$", checks_quick=6000, checks_thorough=120000, shards=4),
       dict(tests="^TestVerifC05_Packets$", checks_quick=5000, checks_thorough=120000, shards=12),
-      dict(tests="^TestVerifC05_ViaRetry$", checks_quick=1500, checks_thorough=24000, shards=6)],
+      dict(tests="^TestVerifC05_ViaRetry$", checks_quick=1500, checks_thorough=24000, shards=6),
+      dict(tests="^TestVerifC05_OverMax$", checks_quick=16, checks_thorough=150, shards=2, shards_quick=1)],
      assumptions=["inputs the API documents as panics are excluded (strings > 65535 bytes, packets > 268435455 bytes, QoS>2 in Subscribe)",
                   "password without user name, empty topics, wildcards in topic names, invalid UTF-8 are not generated",
                   "len(payload) == MaxPayloadLen is not generated (the code rejects it, the property only says 'over the maximum')"],
@@ -172,9 +173,10 @@ prop("C02", "QoS 2 delivered onward exactly once across reconnects", "fault_enum
      "each accepted QoS2 message is in the delivery log exactly once; (2) once PUBCOMP for a message was provably consumed (the "
      "client wrote another packet on that connection afterwards, or it was still up at quiescence) no PUBLISH with its tag and no "
      "PUBREL with its id is ever emitted again. Non-trivial = a cut fired between the first PUBLISH and the PUBCOMP of a QoS2 "
-     "message; distinct = FNV-64 of the case JSON." + ENUMRULE,
+     "message; distinct = FNV-64 of the case JSON. A second generator (Timeouts) ends connections the other way the client knows: ResponseTimeout 5..20 ms and silently dropped PUBREC / PUBCOMP / PUBACK / SUBACK (the link stays up, the client closes it), alone or with cuts, under the same oracle." + ENUMRULE,
      [dict(tests="^TestVerifC02_CutEnum$", exhaustive_once=True),
-      dict(tests="^TestVerifC02_ExactlyOnce$", checks_quick=3000, checks_thorough=45000, shards=16)],
+      dict(tests="^TestVerifC02_ExactlyOnce$", checks_quick=3000, checks_thorough=45000, shards=16),
+      dict(tests="^TestVerifC02_Timeouts$", checks_quick=800, checks_thorough=9000, shards=8, shards_quick=2)],
      assumptions=["broker follows MQTT-4.3.3 receiver rules and keeps session state", "one request outstanding at a time in the task goroutine (keep-alive off, DirectlyPublishQoS0 off)"])
 
 prop("C03", "submission order on the wire, also when retransmitted", "fault_enumeration",
